@@ -542,6 +542,11 @@ def agrees(font, key, exp):
     if kind == "typo":
         # effective typographic name: the record itself, else the legacy record it stands in for
         eff = obs if obs is not ABSENT else observe(font, ("name", exp[1]))
+        # the two typographic records are elided as a PAIR only (both redundant): one of them
+        # alone must not go missing while the other is written
+        partner = observe(font, ("name", 33 - key[1]))
+        if (obs is ABSENT) != (partner is ABSENT):
+            return False, (obs, eff), "IDs 16 and 17 both present or both elided (effective %r)" % (exp[2],)
         return eff == exp[2], (obs, eff), "effective %r" % (exp[2],)
     if kind == "same-as":
         other = observe(font, (key[0], exp[1]))
